@@ -1,4 +1,4 @@
 From Coq Require Import Extraction ExtrOcamlBasic.
-From MW Require Import Common.Str C13.Val C13.Gen_classes C13.Model C13.Wf.
+From MW Require Import Common.Str C13.Val C13.Gen_classes C13.Model C13.Wf C13.ModelEdit.
 Extraction "../ocaml/c13/c13_model.ml" to_json of_json loads new_obj set_field append_article append_item
-  walk_items wfb msorted lower strip py_isspace sorted of_list classes.
+  walk_items wfb msorted lower strip py_isspace sorted of_list classes edit_at.
